@@ -4,6 +4,7 @@ import SSV.Proofs.SaltPoolTs
 import SSV.Proofs.SaltPool
 import SSV.Proofs.SaltPoolInv
 import SSV.Proofs.SaltPoolConc
+import SSV.Proofs.SaltPoolLock
 /-
 C03 — A TCP handshake is accepted at most once while its timestamp is acceptable.
 
@@ -51,6 +52,19 @@ theorem gen_add_program :
   simp only [execAdd, add]
   cases contains (pruneExpired now p) s <;> simp
 
+/-- **`Add` is atomic (linearizable).** Any number of callers run the body of `SaltPool.Add` *as the translator read
+it* one statement at a time, in any interleaving (`sched` = which caller moves next; `Lock` blocks while `p.mu` is
+held, `return` runs the deferred `Unlock`): the results returned are exactly those of running the atomic `add` once per
+call in the order of the returns, and whenever the mutex is free the pool is the pool of that sequential run. This is
+what lets `concurrent_one_winner` treat `Add` as one atomic action. (Go's `sync.RWMutex` giving mutual exclusion is the
+semantics of `lock` in `microStep`; trusted.) -/
+theorem add_is_atomic (p₀ : Pool) (calls : List ACall) (sched : List Nat) :
+    ∃ prog, SSV.Gen.C03.addProgram.map AddStep.ofName = prog.map some ∧
+      let s := mrun P prog (minit p₀ calls) sched
+      (seqAdds P p₀ (s.hist.map (·.1))).2 = s.hist.map (·.2) ∧
+      (s.holder = none → s.pool = (seqAdds P p₀ (s.hist.map (·.1))).1) :=
+  ⟨canonAdd, by decide, add_linearizable P p₀ calls sched⟩
+
 /-- source shapes the model mirrors statement by statement -/
 theorem gen_src_pruneExpired : SSV.Gen.C03.srcPruneExpired =
     "{ node := p.head if node == nil || node.expiresAt.After(now) { return } for { delete(p.nodeBySalt, node.salt) node = node.next if node == nil { p.head = nil p.tail = nil return } if node.expiresAt.After(now) { p.head = node return } } }" := rfl
@@ -81,6 +95,14 @@ theorem ts_valid_word_iff (ts ne : BitVec 64)
     (hlo : -(2 ^ 63 : Int) + P.maxEpochDiff ≤ ne.toInt) (hhi : ne.toInt + P.maxEpochDiff < 2 ^ 63) :
     tsValidWord P ts ne = true ↔ (ts.toInt - ne.toInt ≤ P.maxEpochDiff ∧ ne.toInt - ts.toInt ≤ P.maxEpochDiff) :=
   tsValidWord_iff P ts ne hlo hhi
+
+/-- … and for *every* pair of 64-bit words, without any assumption on the clock: the accepted words are exactly
+`ne + d` in wrapping `int64` arithmetic with `|d| ≤ MaxEpochDiff` (near the ends of `int64` this differs from the
+integer distance, which is why the other statements carry `ClockOk`). -/
+theorem ts_valid_word_wrap (ts ne : BitVec 64) :
+    tsValidWord P ts ne = true ↔
+      ∃ d : Int, -(P.maxEpochDiff : Int) ≤ d ∧ d ≤ P.maxEpochDiff ∧ ts = ne + BitVec.ofInt 64 d :=
+  tsValidWord_iff_wrap P (by decide) ts ne
 
 /-- the same for a clock reading `now ≥ 0` in nanoseconds: `|ts − ⌊now / 10⁹⌋| ≤ MaxEpochDiff` -/
 theorem ts_valid_iff (ts : BitVec 64) (now : Nat) (h : ClockOk P now) :
@@ -172,7 +194,7 @@ theorem pool_sorted (st : State) (ops : List Op) (h : WF P st) :
 
 /-- **One winner.** `k` threads run `HandleStream` on the same bytes `r` against one pool `p₀`; `sched` is any
 interleaving of their atomic actions (`check i c`: the `TryContains` read, possibly skipped; `add i now`: clock
-reading, parse, `Add`, body — `Add` is atomic by `gen_add_program`), each thread reading its own clock, in any order.
+reading, parse, `Add`, body — `Add` is atomic by `add_is_atomic`), each thread reading its own clock, in any order.
 (1) Never are two copies accepted. (2) If `r` is genuine, its salt is not in `p₀`, every clock reading validates the
 timestamp and every thread finished, then exactly one copy is accepted and every other one gets `ErrRepeatedSalt`. -/
 theorem concurrent_one_winner (r : Request) (p₀ : Pool) (k : Nat) (sched : List Act)
@@ -300,6 +322,10 @@ example : ({ genuine 3 946684800#64 with authOk := false } : Request).forged = t
 /-- `ts_valid_word_iff`: clock range non-empty, and both outcomes occur -/
 example : tsValidWord P 946684830#64 946684800#64 = true ∧ tsValidWord P 946684831#64 946684800#64 = false ∧
     tsValidWord P (946684800#64 + 0x8000000000000000#64) 946684800#64 = false := by decide
+/-- `add_is_atomic`: two callers with the same salt, interleaved statement by statement (the second blocks on `Lock`) -/
+example :
+    let s := mrun P canonAdd (minit [] [{ now := 5, salt := 1 }, { now := 7, salt := 1 }]) [0, 1, 0, 1, 0, 0, 1, 0, 0, 1, 1, 1, 1, 1]
+    s.hist = [({ now := 5, salt := 1 }, true), ({ now := 7, salt := 1 }, false)] ∧ s.holder = none := by decide
 /-- `pool_sorted`: the empty pool is well-formed -/
 example : WF P { now := t₀, pool := [] } := wf_empty P t₀
 /-- `concurrent_one_winner`: two threads, the second one's `TryContains` contended, clocks out of order -/
@@ -313,6 +339,7 @@ end SSV.C03
 #print axioms SSV.C03.gen_handle_stages
 #print axioms SSV.C03.gen_salt_pool_guards
 #print axioms SSV.C03.gen_add_program
+#print axioms SSV.C03.add_is_atomic
 #print axioms SSV.C03.gen_src_pruneExpired
 #print axioms SSV.C03.gen_src_insert
 #print axioms SSV.C03.gen_src_contains
@@ -321,6 +348,7 @@ end SSV.C03
 #print axioms SSV.C03.gen_max_epoch_diff
 #print axioms SSV.C03.gen_side_condition
 #print axioms SSV.C03.ts_valid_word_iff
+#print axioms SSV.C03.ts_valid_word_wrap
 #print axioms SSV.C03.ts_valid_iff
 #print axioms SSV.C03.no_double_accept
 #print axioms SSV.C03.only_within_30s
